@@ -330,12 +330,140 @@ fn nodeid_payload_battery(h: &mut Harness) {
     }
 }
 
+/// Payload types that merely LOOK like ids (they contain, borrow as, deref to or convert into a `NodeId`):
+/// written in root position they are values - a new root must be created for them, exactly as for a string.
+#[derive(Clone, Copy, PartialEq, Debug)]
+struct Tagged {
+    id: NodeId,
+    tag: u8,
+}
+impl std::borrow::Borrow<NodeId> for Tagged {
+    fn borrow(&self) -> &NodeId {
+        &self.id
+    }
+}
+impl AsRef<NodeId> for Tagged {
+    fn as_ref(&self) -> &NodeId {
+        &self.id
+    }
+}
+impl std::ops::Deref for Tagged {
+    type Target = NodeId;
+    fn deref(&self) -> &NodeId {
+        &self.id
+    }
+}
+impl From<Tagged> for NodeId {
+    fn from(t: Tagged) -> NodeId {
+        t.id
+    }
+}
+
+fn idlike_payload_battery(h: &mut Harness) {
+    macro_rules! one {
+        ($name:expr, $ty:ty, $mk:expr) => {{
+            let name: &str = $name;
+            let r = std::panic::catch_unwind(|| -> Result<(), String> {
+                for round in 0..2usize {
+                    // ids taken from THIS arena, so that "the node with that id" exists and is somebody else's
+                    let mut a: Arena<$ty> = Arena::new();
+                    let mut seedarena: Arena<u8> = Arena::new();
+                    let foreign: Vec<NodeId> = (0..6u8).map(|i| seedarena.new_node(i)).collect();
+                    let mk = $mk;
+                    let pre: Vec<NodeId> = (0..4).map(|i| a.new_node(mk(foreign[i]))).collect();
+                    pre[0].append(pre[1], &mut a);
+                    if round == 1 {
+                        pre[3].remove(&mut a);
+                    }
+                    let before_live = a.iter().filter(|n| !n.is_removed()).count();
+                    let snapshot: Vec<(Option<NodeId>, Option<NodeId>)> = pre.iter().take(3).map(|p| (a[*p].first_child(), a[*p].last_child())).collect();
+                    // pre[0]'s id is what the written root value carries / borrows as
+                    let r = tree!(&mut a, mk(pre[0]) => { mk(pre[1]), mk(pre[2]) => { mk(pre[0]) } });
+                    let after_live = a.iter().filter(|n| !n.is_removed()).count();
+                    if after_live != before_live + 4 {
+                        return Err(format!("{}: 4 expressions written with a value root, live nodes went {} -> {}", name, before_live, after_live));
+                    }
+                    if pre.iter().take(3).any(|p| *p == r) {
+                        return Err(format!("{}: the value written as root was taken for the id of an existing node ({:?})", name, r));
+                    }
+                    if a[r].parent().is_some() || *a[r].get() != mk(pre[0]) {
+                        return Err(format!("{}: the returned root is not a new root node holding the written value", name));
+                    }
+                    let now: Vec<(Option<NodeId>, Option<NodeId>)> = pre.iter().take(3).map(|p| (a[*p].first_child(), a[*p].last_child())).collect();
+                    if now != snapshot {
+                        return Err(format!("{}: existing nodes got children from a literal whose root was a value", name));
+                    }
+                    let kids: Vec<$ty> = r.children(&a).map(|c| a[c].get().clone()).collect();
+                    if kids != vec![mk(pre[1]), mk(pre[2])] {
+                        return Err(format!("{}: children of the new root hold {:?}", name, kids));
+                    }
+                    if r.descendants(&a).count() != 4 {
+                        return Err(format!("{}: the new tree has {} nodes, 4 written", name, r.descendants(&a).count()));
+                    }
+                }
+                Ok(())
+            });
+            h.literals += 2;
+            h.nodes += 8;
+            match r {
+                Ok(Ok(())) => {}
+                Ok(Err(e)) => h.findings.push((usize::MAX, "idlike-payload".into(), e)),
+                Err(_) => h.findings.push((usize::MAX, "idlike-payload-panic".into(), format!("tree! on an arena of {} panicked", name))),
+            }
+        }};
+    }
+    one!("Box<NodeId>", Box<NodeId>, |i: NodeId| Box::new(i));
+    one!("Tagged (Borrow/AsRef/Deref/Into NodeId)", Tagged, |i: NodeId| Tagged { id: i, tag: 7 });
+    one!("(NodeId,)", (NodeId,), |i: NodeId| (i,));
+    one!("Option<NodeId>", Option<NodeId>, |i: NodeId| Some(i));
+    one!("[NodeId; 1]", [NodeId; 1], |i: NodeId| [i]);
+    one!("std::rc::Rc<NodeId>", std::rc::Rc<NodeId>, |i: NodeId| std::rc::Rc::new(i));
+    one!("std::num::NonZeroUsize", std::num::NonZeroUsize, |i: NodeId| std::num::NonZeroUsize::from(i));
+    // references to ids
+    {
+        static CELL: std::sync::OnceLock<Vec<NodeId>> = std::sync::OnceLock::new();
+        let ids: &'static Vec<NodeId> = CELL.get_or_init(|| {
+            let mut a: Arena<u8> = Arena::new();
+            (0..8u8).map(|i| a.new_node(i)).collect()
+        });
+        let r = std::panic::catch_unwind(|| -> Result<(), String> {
+            let mut a: Arena<&'static NodeId> = Arena::new();
+            let p0 = a.new_node(&ids[0]);
+            let p1 = a.new_node(&ids[1]);
+            p0.append(p1, &mut a);
+            let r = tree!(&mut a, &ids[0] => { &ids[1], &ids[2] });
+            if r == p0 || r == p1 || a.count() != 5 || a[r].parent().is_some() || **a[r].get() != ids[0] || p0.children(&a).count() != 1 {
+                return Err(format!("&NodeId: a reference written as root value was not given a new root (returned {:?}, count {})", r, a.count()));
+            }
+            Ok(())
+        });
+        h.literals += 1;
+        h.nodes += 3;
+        match r {
+            Ok(Ok(())) => {}
+            Ok(Err(e)) => h.findings.push((usize::MAX, "idlike-payload".into(), e)),
+            Err(_) => h.findings.push((usize::MAX, "idlike-payload-panic".into(), "tree! on an arena of &NodeId panicked".into())),
+        }
+    }
+}
+
+/// A literal whose expansion panics on valid input is an observation about that literal, not the end of the run.
+fn guard(h: &mut Harness, i: usize, f: fn(&mut Harness)) {
+    let r = std::panic::catch_unwind(std::panic::AssertUnwindSafe(|| f(h)));
+    if let Err(p) = r {
+        let msg = p.downcast_ref::<String>().cloned().or_else(|| p.downcast_ref::<&str>().map(|s| s.to_string())).unwrap_or_else(|| "(no message)".into());
+        h.findings.push((i, "panic".into(), format!("a well-formed literal panicked: {}", msg.chars().take(200).collect::<String>())));
+    }
+}
+
 include!(env!("IXV_GENERATED"));
 
 fn main() {
+    std::panic::set_hook(Box::new(|_| {}));
     let mut h = Harness::default();
     run_all(&mut h);
     nodeid_payload_battery(&mut h);
+    idlike_payload_battery(&mut h);
     for (i, sig, detail) in &h.findings {
         println!("FINDING literal={} sig=macro/{} detail={}", if *i == usize::MAX { "nodeid-battery".to_string() } else { i.to_string() }, sig, detail.replace('\n', " "));
     }
